@@ -425,11 +425,15 @@ example : ∃ s', run St.init [.make 0, .assign 0 0, .copy 1 0, .assign 0 1, .ma
 
 /-! ## Concurrent part: all interleavings
 
-`n ≥ 1` threads, each starting with one handle to the shared object and running an arbitrary
-program over its two local handles (copy-construct, copy- and move-assign, reset, swap, unique(),
-final destructors).  A transition is one atomic operation on the reference count (or the start of
-the object's destructor) of *any* thread that has one outstanding: `cstep`.  `Reach` is the set of
-states of all interleavings. -/
+`n ≥ 1` threads, each starting with two handles to the shared object (a `CountingPtr<Base>` and a
+`CountingPtr<Derived>`) plus an empty one and running an arbitrary program over them: copy-construct,
+copy- and move-assign, the converting copy/move construction and assignment to the base-pointer
+type, reset, swap, unique(), **unify()**, final destructors.  A transition is one visible step of
+*any* thread that has one outstanding (`cstep`): an atomic operation on the shared reference count,
+the start of the object's destructor, or the start of the copy construction inside `unify()`.
+`unify()` is a conditional sequence: its `unique()` load decides whether the copy and the release
+follow, and other threads may run between the test, the copy and the decrement.  `Reach` is the set
+of states of all interleavings. -/
 
 inductive Reach (asserts : Bool) (progs : List (List Char)) : CSt → Prop where
   | start : Reach asserts progs (CSt.start asserts progs)
@@ -479,10 +483,11 @@ theorem conc_terminal_destroyed_once {asserts : Bool} {progs : List (List Char)}
     intro t ht
     have hp := hfin t ht
     have hprog := hI.stl t ht hp
-    rcases hI.pok t ht with ⟨pre, e⟩ | ⟨e, _⟩ | ⟨_, h0, h1⟩
+    rcases hI.pok t ht with ⟨pre, e⟩ | ⟨e, _⟩ | ⟨e, _⟩ | ⟨_, h0, h1, h2⟩
     · rw [hprog] at e; simp at e
     · rw [hprog] at e; simp at e
-    · simp [contrib, own, h0, h1, hp, pendBal]
+    · rw [hprog] at e; simp at e
+    · simp [contrib, own, b2i, h0, h1, h2, hp, pendBal]
   have hz : ∀ t ∈ s.thr, delsI t = 0 := by
     intro t ht; simp [delsI, dels, hfin t ht]
   have hcnt : s.count = 0 := by
@@ -516,5 +521,13 @@ theorem runSched_reach {asserts : Bool} {progs : List (List Char)} (fuel : Nat) 
 /-- non-vacuity: a concrete 3-thread interleaving in which thread 2 destroys the object -/
 example : (runSched true 100 (CSt.start true ["cc".toList, "am".toList, "cab".toList])
     [0, 1, 0, 1, 1, 0, 2, 2, 1] 0 0 []).1.destroyed = 1 := by decide
+
+/-- non-vacuity, the unify() window: thread 0 drops D and tests `unique()` (count 3), thread 1 then
+    releases both its handles, thread 0 copies and its decrement is the last one: it must — and
+    does — run the destructor (`[load, dec, load(3), load, dec, load, dec, copy, load, dec=0, del, …]`) -/
+example : let r := runSched true 100 (CSt.start true ["Qx".toList, []]) [0, 0, 0, 1, 1, 1, 1, 0, 0, 0, 0, 0] 0 0 []
+    r.1.destroyed = 1 ∧ r.1.err = none ∧
+    r.2.1 = ["t0:load=4", "t0:dec=3", "t0:load=3", "t1:load=3", "t1:dec=2", "t1:load=2", "t1:dec=1",
+             "t0:copy", "t0:load=1", "t0:dec=0", "t0:del", "t0:load=0"] := by decide
 
 end TlxVerif.C12
